@@ -201,7 +201,14 @@ func findFiles(cwd string, patterns []string) (_ []sourcePath, err error) {
 		}
 
 		for _, f := range fs {
-			files[f.Absolute] = f
+			// Two arguments may name the same file differently, through a
+			// symbolic link to one of its parent directories. It is one
+			// file, to be processed once (under the spelling given last).
+			key := f.Absolute
+			if resolved, err := filepath.EvalSymlinks(key); err == nil {
+				key = resolved
+			}
+			files[key] = f
 		}
 	}
 
